@@ -116,6 +116,13 @@ type MyInt int
 
 type MyString string
 
+// aliases: identical to the type they stand for, but their own node in go/types
+type AliasSL = SL
+
+type AliasInt = int
+
+type AliasExt = ext.SE
+
 // SL is a local struct with an unexported field.
 type SL struct {
 	A int
@@ -451,7 +458,7 @@ func subTerms(t *TypeTerm) []*TypeTerm {
 	if (t.K == "leaf" || t.K == "basic") && t.N != "int" {
 		add(&TypeTerm{K: "basic", N: "int"})
 	}
-	if t.K == "leaf" && t.N != "SL" && t.N != "MyInt" && t.N != "MyString" && t.N != "time.Duration" {
+	if t.K == "leaf" && t.N != "SL" && t.N != "MyInt" && t.N != "MyString" && t.N != "time.Duration" && !strings.HasPrefix(t.N, "Alias") {
 		add(&TypeTerm{K: "leaf", N: "SL"}) // the plainest struct leaf
 	}
 	if t.K == "leaf" || (t.K != "basic" && t.Size() > 2) {
